@@ -59,6 +59,12 @@ theorem control_bounds_is_box_of_points (pts : List Point) (hshape : ReversibleS
     (herr : drawErr pts = none) : freshCpb pts = boxOfPts (pts.map (·.pt)) :=
   freshCpb_eq_boxOfPts pts hshape herr
 
+/-- On an outline of straight lines `bounds` is the same box as `controlPointBounds` — hence (by
+the previous theorem) the plain min/max box of the points: the exact independent computation. -/
+theorem line_outline_bounds_is_control_bounds (o : CurveOracle) (pts : List Point) (h : allOn pts = true) :
+    freshBnd o pts = freshCpb pts :=
+  freshBnd_eq_freshCpb_of_allOn o pts h
+
 /-- The same two facts for a component (base glyph drawn through its transformation, nested
 components included): its `bounds` lie within its `controlPointBounds`. -/
 theorem component_bounds_within_control_bounds {o : CurveOracle} (ho : o.Lawful) (w : World) (k : Component)
@@ -87,6 +93,7 @@ example : OnPath none (prims Ex.closed) ⟨50, 0⟩ := by
   right; left
   exact ⟨1 / 2, by norm_num, by norm_num, by simp [Prim.at, Pt.lerp, lerp]; norm_num⟩
 example : freshCpb Ex.closed = some ⟨0, 0, 150, 140⟩ := by decide +kernel
+example : allOn Ex.square = true ∧ freshBnd hullOracle Ex.square = some ⟨10, 20, 110, 120⟩ := by decide +kernel
 example : boxOfPts (Ex.opened.map (·.pt)) = some ⟨0, -5 / 8, 100, 60⟩ ∧ drawErr Ex.opened = none := by decide +kernel
 example : freshBnd hullOracle Ex.closed = some ⟨0, 0, 150, 140⟩ := by decide +kernel
 example : Component.bounds hullOracle Ex.world ⟨"base", ⟨-1, 0, 0, 1, 40, -7 / 2⟩⟩ = .ok (some ⟨-110, -7 / 2, 40, 273 / 2⟩) := by
